@@ -197,6 +197,11 @@ def generate(seed, mode):
                 ops.extend(pair)
                 ops.append({'op': 'probe', 'k': k})
                 continue
+            if shape in ('chain', 'dynamic') and o.random() < 0.04:
+                ops.append({'op': 'flaky', 'r': o.randrange(nR), 'sel': o.randrange(8), 'v': o.randrange(len(vals)),
+                            'key': 0 if o.random() < 0.6 else o.randrange(64), 'k': k})
+                ops.append({'op': 'probe', 'k': k})
+                continue
             if shape in ('chain', 'dynamic', 'subs') and o.random() < 0.03:
                 ops.append({'op': 'regen', 'r': o.randrange(nR), 'v': o.randrange(len(vals)), 'key': 0 if o.random() < 0.6 else o.randrange(64), 'k': k})
                 ops.append({'op': 'probe', 'k': k})
@@ -282,6 +287,27 @@ def generate(seed, mode):
 
 class Boom(Exception):
     pass
+
+
+class LibRaised(Exception):
+    """an exception that came out of a call into the library made by one of the call helpers (an exception raised by the C
+    extension has no Python frame inside zope/interface, so the traceback alone cannot tell it from a harness error)"""
+
+    def __init__(self, exc):
+        Exception.__init__(self, repr(exc))
+        self.exc = exc
+
+
+def libcall(fn):
+    def wrapper(*a, **k):
+        try:
+            return fn(*a, **k)
+        except (Boom, Stop, LibRaised):
+            raise
+        except Exception as e:        # noqa
+            raise LibRaised(e)
+    wrapper.__name__ = fn.__name__
+    return wrapper
 
 
 class Falsy:
@@ -446,8 +472,25 @@ def execute(program, ctx, mode):
     RD = W['regs']
     nR = len(RD)
 
+    class Unreadable(Exception):
+        pass
+
+    class FlakyV(VerifyingAdapterRegistry):
+        """a verifying registry whose change counter can be made unreadable for a moment (think of a persistent registry
+        whose state cannot be loaded): used by the `flaky` operation, otherwise an ordinary VerifyingAdapterRegistry"""
+        def _get_generation(self):
+            if self.__dict__.get('_unreadable'):
+                raise Unreadable()
+            return self.__dict__.get('_gen', 0)
+
+        def _set_generation(self, v):
+            self.__dict__['_gen'] = v
+        _generation = property(_get_generation, _set_generation)
+    flaky_world = h64(program.get('seed') or 0, 'flaky-world') % 3 == 0
+    VClass = FlakyV if flaky_world else VerifyingAdapterRegistry
+
     def mkregs():
-        return [(AdapterRegistry if RD[r]['flav'] == 'A' else VerifyingAdapterRegistry)() for r in range(nR)]
+        return [(AdapterRegistry if RD[r]['flav'] == 'A' else VClass)() for r in range(nR)]
 
     regs = mkregs()
     rb = {r: [] for r in range(nR)}
@@ -653,6 +696,7 @@ def execute(program, ctx, mode):
 
     askno = [0]
 
+    @libcall
     def ask(rs, key, e, default=None, name=None):
         reg = rs[key['r'] % nR]
         specs = key_specs(key)
@@ -736,6 +780,7 @@ def execute(program, ctx, mode):
 
     styleno = [0]
 
+    @libcall
     def lk(reg, specs, pi, nm, *default):
         """reg.lookup(...) as a caller may spell it: positional or keyword arguments, in rotation"""
         styleno[0] += 1
@@ -747,6 +792,33 @@ def execute(program, ctx, mode):
         if styleno[0] % 3 == 2 and default:
             return reg.lookup(specs, pi, name=nm, default=default[0])
         return reg.lookup(specs, pi, nm, *default)
+
+    @libcall
+    def styled(kind, reg, specs, objs, pi, nm, dflt):
+        """one of the five single-answer entry points, spelled positionally, with keyword arguments, or with a str-subclass name"""
+        styleno[0] += 1
+        st = styleno[0] % 3
+        if st == 2 and isinstance(nm, str):
+            nm = StrSub(nm)
+        if st == 1:
+            if kind == 'lookup':
+                return reg.lookup(required=specs, provided=pi, name=nm, default=dflt)
+            if kind == 'lookup1':
+                return reg.lookup1(required=specs[0], provided=pi, name=nm, default=dflt)
+            if kind == 'queryAdapter':
+                return reg.queryAdapter(object=objs[0], provided=pi, name=nm, default=dflt)
+            if kind == 'adapter_hook':
+                return reg.adapter_hook(provided=pi, object=objs[0], name=nm, default=dflt)
+            return reg.queryMultiAdapter(objects=objs, provided=pi, name=nm, default=dflt)
+        if kind == 'lookup':
+            return reg.lookup(specs, pi, nm, dflt)
+        if kind == 'lookup1':
+            return reg.lookup1(specs[0], pi, nm, dflt)
+        if kind == 'queryAdapter':
+            return reg.queryAdapter(objs[0], pi, nm, dflt)
+        if kind == 'adapter_hook':
+            return reg.adapter_hook(pi, objs[0], nm, dflt)
+        return reg.queryMultiAdapter(objs, pi, nm, dflt)
 
     def same(a, b):
         if isinstance(a, list) and isinstance(b, list):
@@ -877,13 +949,13 @@ def execute(program, ctx, mode):
             dflt = object()      # a different default object on every call: defaults are returned by identity, never cached
             ctx.sig('c08-order', tuple(order[:3]))
             if kind == 'lookup':
-                got = regs[r].lookup(specs, pi, nm, dflt)
+                got = styled('lookup', regs[r], specs, objs, pi, nm, dflt)
                 want = dflt if f is None else f
                 ok = got is want
             elif kind == 'lookup1':
                 if len(specs) != 1:
                     continue
-                got = regs[r].lookup1(specs[0], pi, nm, dflt)
+                got = styled('lookup1', regs[r], specs, objs, pi, nm, dflt)
                 want = dflt if f is None else f
                 ok = got is want
             elif kind == 'lookupAll':
@@ -913,12 +985,7 @@ def execute(program, ctx, mode):
                         ctx.fault('factory-falsy')
                 del calls[:]
                 try:
-                    if kind == 'queryAdapter':
-                        got = regs[r].queryAdapter(objs[0], pi, nm, dflt)
-                    elif kind == 'adapter_hook':
-                        got = regs[r].adapter_hook(pi, objs[0], nm, dflt)
-                    else:
-                        got = regs[r].queryMultiAdapter(objs, pi, nm, dflt)
+                    got = styled(kind, regs[r], specs, objs, pi, nm, dflt)
                     gexc = None
                 except Boom:
                     got, gexc = None, Boom
@@ -1083,7 +1150,7 @@ def execute(program, ctx, mode):
     def check_replay(r):
         """replaying allRegistrations()/allSubscriptions() into an empty registry answers identically"""
         before = answers(regs, r)
-        fresh = (AdapterRegistry if RD[r]['flav'] == 'A' else VerifyingAdapterRegistry)(regs[r].__bases__)
+        fresh = (AdapterRegistry if RD[r]['flav'] == 'A' else VClass)(regs[r].__bases__)
         for args in list(regs[r].allRegistrations()):
             fresh.register(*args)
         for args in list(regs[r].allSubscriptions()):
@@ -1109,10 +1176,13 @@ def execute(program, ctx, mode):
 
     def unexpected(prop_for_op, opname, e):
         import traceback
+        lib = isinstance(e, LibRaised)
+        if lib:
+            e = e.exc
         tb = traceback.extract_tb(e.__traceback__)
         frames = [f for f in tb if 'zope/interface' in f.filename]
-        where = '%s:%s' % (frames[-1].filename.rsplit('/', 1)[-1], frames[-1].name) if frames else 'harness'
-        if not frames:
+        where = '%s:%s' % (frames[-1].filename.rsplit('/', 1)[-1], frames[-1].name) if frames else ('extension-code' if lib else 'harness')
+        if not frames and not lib:
             raise e
         for pp in sorted(props):
             ctx.violation(pp, 'unexpected-exception', '%s|exception|%s|%s|%s' % (pp, opname, type(e).__name__, where),
@@ -1359,6 +1429,40 @@ def execute(program, ctx, mode):
                 last_mut[0] = 'registry-bases'
                 ctx.log(step, 'rbases', r, cands)
                 opk = None
+            elif name == 'flaky':
+                # a registration in a verifying registry while the change counter of one of the registries above it cannot be
+                # read: the call fails (after the registration was recorded); what the registry answers afterwards must not
+                # depend on the implementation, and must include the recorded registration
+                r = op['r'] % nR
+                if not flaky_world or not alive[r] or RD[r]['flav'] != 'V':
+                    continue
+                above = [b for b in ro_of(r)[1:] if RD[b]['flav'] == 'V' and alive[b]]
+                if not above:
+                    continue
+                b = above[op['sel'] % len(above)]
+                fk = W['keypool'][op['key'] % len(W['keypool'])]
+                rq = tuple(norm([LK[x % len(LK)] if LK[x % len(LK)] in SP else SP[x % len(SP)] for x in fk['req']]))
+                pp = fk['p'] % (nP + 1)
+                pp = pp if pp < nP else 0
+                nm = NAMES[fk['n'] % 3]
+                v = vals[op['v'] % len(vals)]
+                if live.get((r, rq, pp, nm)) is v:
+                    continue
+                regs[b].__dict__['_unreadable'] = True
+                try:
+                    try:
+                        mutate(('reg', r, real_req(rq), P[pp], nm, v))
+                        outcome = 'ok'
+                    except Unreadable:
+                        outcome = 'Unreadable'
+                        mutlog.append(('reg', r, real_req(rq), P[pp], nm, v))       # the twins replay it as an ordinary registration
+                finally:
+                    regs[b].__dict__.pop('_unreadable', None)
+                live[(r, rq, pp, nm)] = v
+                ctx.fault('cb-raise-in-change-notification-of-a-mutator')
+                last_mut[0] = 'register'
+                ctx.log(step, 'flaky', r, b, rq, pp, nm, v, outcome)
+                opk = (rq, pp, nm)
             elif name == 'regen':
                 # rebuild() of a registry, then as many further real changes as bring its change counter back to the value it
                 # had before -- with different content, and with no lookup anywhere in between: whoever compares counters
